@@ -312,22 +312,22 @@ theorem fresh_ignore {L0 w s r} (h : Good L0 w s r) : Fresh s.ignore (advLoc L0 
   ⟨rfl, rfl, fun hne => by simp [LState.ignore, h.loc hne]⟩
 
 /-- how the value of a token relates to its raw text -/
-def TextOf (T : LexTables) (t : Token) (raw : List Char) : Prop :=
+def TextOf (cc : CharClass) (T : LexTables) (t : Token) (raw : List Char) : Prop :=
   t.value = String.ofList raw ∨
   (t.kind = .string ∧ ∃ v, unescape T raw = .ok v ∧ t.value = String.ofList v) ∨
   (t.kind = .operator ∧ t.value = "not in" ∧
-    ∃ mid, raw = T.notWord.toList ++ mid ++ T.inWord.toList ∧ ∀ c ∈ mid, c = ' ')
+    ∃ mid, raw = T.notWord.toList ++ mid ++ T.inWord.toList ∧ ∀ c ∈ mid, cc.wordBlank c = true)
 
 /-- outcome of a state function that had read `w` since the token start `L0` with `rest` ahead -/
-def StepOK (T : LexTables) (L0 : Loc) (w rest : List Char) : Step → Prop
-  | .tok t s1 r1 => ∃ w1, rest = w1 ++ r1 ∧ t.loc = L0 ∧ t.kind ≠ .eof ∧ TextOf T t (w ++ w1) ∧
+def StepOK (cc : CharClass) (T : LexTables) (L0 : Loc) (w rest : List Char) : Step → Prop
+  | .tok t s1 r1 => ∃ w1, rest = w1 ++ r1 ∧ t.loc = L0 ∧ t.kind ≠ .eof ∧ TextOf cc T t (w ++ w1) ∧
       Fresh s1 (advLoc L0 (w ++ w1)) r1
   | .fail e => e.2 ≠ "fuel"
   | .skip _ _ => False
   | .eof _ => False
 
-theorem StepOK.of_ext {T L0 w rest o st} (h : Ext L0 w rest o)
-    (h2 : ∀ w', Good L0 w' o.1 o.2 → StepOK T L0 w' o.2 st) : StepOK T L0 w rest st := by
+theorem StepOK.of_ext {cc T L0 w rest o st} (h : Ext L0 w rest o)
+    (h2 : ∀ w', Good L0 w' o.1 o.2 → StepOK cc T L0 w' o.2 st) : StepOK cc T L0 w rest st := by
   obtain ⟨w1, e1, g1⟩ := h
   have := h2 _ g1
   cases st with
@@ -339,7 +339,7 @@ theorem StepOK.of_ext {T L0 w rest o st} (h : Ext L0 w rest o)
   | skip _ _ => exact this
   | eof _ => exact this
 
-theorem StepOK.cons {T L0 w c cs st} (h : StepOK T L0 (w ++ [c]) cs st) : StepOK T L0 w (c :: cs) st := by
+theorem StepOK.cons {cc T L0 w c cs st} (h : StepOK cc T L0 (w ++ [c]) cs st) : StepOK cc T L0 w (c :: cs) st := by
   cases st with
   | tok t s1 r1 =>
     obtain ⟨w2, e2, hl, hk, ht, hf⟩ := h
@@ -352,12 +352,12 @@ theorem StepOK.cons {T L0 w c cs st} (h : StepOK T L0 (w ++ [c]) cs st) : StepOK
 theorem text_of_good {L0 w s r} (h : Good L0 w s r) : s.text = w := by
   simp [LState.text, h.word]
 
-theorem stepOK_emit {T L0 w s r} (k : TokKind) (hk : k ≠ .eof) (h : Good L0 w s r) :
-    StepOK T L0 w r (emit k s r) :=
+theorem stepOK_emit {cc T L0 w s r} (k : TokKind) (hk : k ≠ .eof) (h : Good L0 w s r) :
+    StepOK cc T L0 w r (emit k s r) :=
   ⟨[], by simp, h.start, hk, Or.inl (by simp [mkTok, text_of_good h]), by simpa using fresh_ignore h⟩
 
 theorem stepOK_numberState {T L0 w s rest} (cc : CharClass) (h : Good L0 w s rest) :
-    StepOK T L0 w rest (numberState cc T s rest) := by
+    StepOK cc T L0 w rest (numberState cc T s rest) := by
   unfold numberState
   have e := ext_scanNumber cc T h
   generalize scanNumber cc T s rest = a at *
@@ -366,12 +366,12 @@ theorem stepOK_numberState {T L0 w s rest} (cc : CharClass) (h : Good L0 w s res
   | false => exact (by decide : ("badnumber" : String) ≠ "fuel")
   | true => exact StepOK.of_ext e fun w' g => stepOK_emit .number (by decide) g
 
-theorem stepOK_dotTail {T L0 w s rest} (h : Good L0 w s rest) :
-    StepOK T L0 w rest (emit .operator (accept T.dotC s rest).2.1 (accept T.dotC s rest).2.2) :=
+theorem stepOK_dotTail {cc T L0 w s rest} (h : Good L0 w s rest) :
+    StepOK cc T L0 w rest (emit .operator (accept T.dotC s rest).2.1 (accept T.dotC s rest).2.2) :=
   StepOK.of_ext (ext_accept T.dotC h) fun _ g2 => stepOK_emit .operator (by decide) g2
 
 theorem stepOK_dotState {T L0 w s c cs} (cc : CharClass) (h : Good L0 w s (c :: cs)) :
-    StepOK T L0 (w ++ [c]) cs (dotState cc T s (c :: cs)) := by
+    StepOK cc T L0 (w ++ [c]) cs (dotState cc T s (c :: cs)) := by
   unfold dotState
   have g := good_adv h
   cases cs with
@@ -385,8 +385,8 @@ theorem stepOK_dotState {T L0 w s c cs} (cc : CharClass) (h : Good L0 w s (c :: 
     · simp only [next, accept_cons, hd, Bool.false_eq_true, if_false]
       exact stepOK_dotTail (good_unread g)
 
-theorem stepOK_nilsafeState {T L0 w s c cs} (h : Good L0 w s (c :: cs)) :
-    StepOK T L0 (w ++ [c]) cs (nilsafeState T s (c :: cs)) := by
+theorem stepOK_nilsafeState {cc T L0 w s c cs} (h : Good L0 w s (c :: cs)) :
+    StepOK cc T L0 (w ++ [c]) cs (nilsafeState T s (c :: cs)) := by
   unfold nilsafeState
   simp only [next]
   exact StepOK.of_ext (ext_accept T.nilsafeSecond (good_adv h)) fun _ g2 => stepOK_emit .operator (by decide) g2
@@ -428,9 +428,9 @@ theorem ext_scanString {L0} (T : LexTables) (q : Char) (rest : List Char) :
 
 /-! ### identifiers, `not`, `not in` -/
 
-theorem skipSpaces_spec {L0 w s rest} (h : Good L0 w s rest) :
-    ∃ mid, (∀ c ∈ mid, c = ' ') ∧ rest = mid ++ (skipSpaces s rest).2 ∧
-      Good L0 (w ++ mid) (skipSpaces s rest).1 (skipSpaces s rest).2 := by
+theorem skipSpaces_spec {L0 w s rest} (cc : CharClass) (h : Good L0 w s rest) :
+    ∃ mid, (∀ c ∈ mid, cc.wordBlank c = true) ∧ rest = mid ++ (skipSpaces cc s rest).2 ∧
+      Good L0 (w ++ mid) (skipSpaces cc s rest).1 (skipSpaces cc s rest).2 := by
   induction rest generalizing w s with
   | nil =>
     refine ⟨[], by simp, ?_, ?_⟩
@@ -474,13 +474,14 @@ theorem good_restore {L0 w s rest} {cur : LState} (h : Good L0 w s rest) (hc : c
     Good L0 w { cur with word := s.word, loc := s.loc, prev := s.prev } rest :=
   ⟨h.word, hc, h.loc⟩
 
-theorem acceptWord_spec {L0 w s rest} (word : List Char) (h : Good L0 w s rest) :
-    (∀ s' r', acceptWord word s rest = (true, s', r') →
-      ∃ mid, (∀ c ∈ mid, c = ' ') ∧ rest = mid ++ word ++ r' ∧ Good L0 (w ++ (mid ++ word)) s' r') ∧
-    (∀ s' r', acceptWord word s rest = (false, s', r') → r' = rest ∧ Good L0 w s' rest) := by
+theorem acceptWord_spec {L0 w s rest} (cc : CharClass) (word : List Char) (h : Good L0 w s rest) :
+    (∀ s' r', acceptWord cc word s rest = (true, s', r') →
+      ∃ mid, (∀ c ∈ mid, cc.wordBlank c = true) ∧ rest = mid ++ word ++ r' ∧
+        Good L0 (w ++ (mid ++ word)) s' r') ∧
+    (∀ s' r', acceptWord cc word s rest = (false, s', r') → r' = rest ∧ Good L0 w s' rest) := by
   unfold acceptWord
-  obtain ⟨mid, hm, e1, g1⟩ := skipSpaces_spec h
-  generalize skipSpaces s rest = a1 at *
+  obtain ⟨mid, hm, e1, g1⟩ := skipSpaces_spec cc h
+  generalize skipSpaces cc s rest = a1 at *
   obtain ⟨s1, r1⟩ := a1
   simp only at e1 g1 ⊢
   cases hmw : matchWord word s1 r1 with
@@ -515,20 +516,20 @@ theorem acceptWord_spec {L0 w s rest} (word : List Char) (h : Good L0 w s rest) 
     | some c =>
       simp only
       split
+      · exact ⟨fun s' r' he => (by cases he; exact ⟨mid, hm, hrest, hgood⟩), fun s' r' he => (by cases he)⟩
       · refine ⟨fun s' r' he => (by cases he), fun s' r' he => ?_⟩
         cases he
         exact ⟨rfl, good_restore h g3.start⟩
-      · exact ⟨fun s' r' he => (by cases he; exact ⟨mid, hm, hrest, hgood⟩), fun s' r' he => (by cases he)⟩
 
-theorem stepOK_emitValue_plain {T L0 w s r} (k : TokKind) (hk : k ≠ .eof) (v : List Char) (hv : v = w)
-    (h : Good L0 w s r) : StepOK T L0 w r (emitValue k v s r) :=
+theorem stepOK_emitValue_plain {cc T L0 w s r} (k : TokKind) (hk : k ≠ .eof) (v : List Char) (hv : v = w)
+    (h : Good L0 w s r) : StepOK cc T L0 w r (emitValue k v s r) :=
   ⟨[], by simp, h.start, hk, Or.inl (by simp [mkTok, hv]), by simpa using fresh_ignore h⟩
 
-theorem stepOK_notState {T L0 w s rest} (hnot : T.notWord = "not") (hw : w = T.notWord.toList)
-    (h : Good L0 w s rest) : StepOK T L0 w rest (notState T s rest) := by
+theorem stepOK_notState {cc T L0 w s rest} (hnot : T.notWord = "not") (hw : w = T.notWord.toList)
+    (h : Good L0 w s rest) : StepOK cc T L0 w rest (notState cc T s rest) := by
   unfold notState
-  obtain ⟨ht, hf⟩ := acceptWord_spec T.inWord.toList h
-  generalize acceptWord T.inWord.toList s rest = a at *
+  obtain ⟨ht, hf⟩ := acceptWord_spec cc T.inWord.toList h
+  generalize acceptWord cc T.inWord.toList s rest = a at *
   obtain ⟨b, s1, r1⟩ := a
   cases b with
   | true =>
@@ -549,7 +550,7 @@ theorem stepOK_notState {T L0 w s rest} (hnot : T.notWord = "not") (hw : w = T.n
 
 theorem stepOK_identifierState {T L0 w s c cs} (cc : CharClass) (hnot : T.notWord = "not")
     (hc : cc.isAlphaNumeric c = true) (h : Good L0 w s (c :: cs)) :
-    StepOK T L0 (w ++ [c]) cs (identifierState cc T s (c :: cs)) := by
+    StepOK cc T L0 (w ++ [c]) cs (identifierState cc T s (c :: cs)) := by
   unfold identifierState
   simp only [acceptRunP, hc, if_true]
   have e := ext_acceptRunP cc.isAlphaNumeric (good_adv h)
@@ -604,7 +605,7 @@ theorem ext_number_digit {L0 w s c cs} (hc : '0' ≤ c ∧ c ≤ '9') (h : Good 
 
 theorem stepOK_number_digit {L0 w s c cs} (cc : CharClass) (hc : '0' ≤ c ∧ c ≤ '9')
     (h : Good L0 w s (c :: cs)) :
-    StepOK LexTables.std L0 (w ++ [c]) cs (numberState cc LexTables.std s (c :: cs)) := by
+    StepOK cc LexTables.std L0 (w ++ [c]) cs (numberState cc LexTables.std s (c :: cs)) := by
   unfold numberState
   rw [scanNumber_eq]
   have e1 := ext_number_digit hc h
